@@ -160,16 +160,10 @@ for _l, _c in WALK:
     tree(_l, _c)
 
 
-def nth_walk_ok(wi: int, mode: int, last: bool) -> bool:
-    """
-    pre: 0 <= wi < NW
-    pre: 0 <= mode <= 2
-    post: _
-    """
+def _walk(wi: int, mode: int, last: bool) -> bool:
     # the position the real sibling walk assigns to every element (recovered through :nth-*(p), p = 0..n+1)
     # equals the reference position, for child / of-type / "of .x" counting from either end
-    wi, mode, last = concrete(wi), concrete(mode), concrete(last)
-    with notrace():
+    if True:
         layout, container = WALK[wi]
         of_type = mode == 1
         of_x = mode == 2
@@ -188,22 +182,36 @@ def nth_walk_ok(wi: int, mode: int, last: bool) -> bool:
                 nth = SimpleNamespace(a=aa, n=True, b=bb, of_type=of_type, last=last, selectors=sel)
                 if bool(m.match_nth(els[i][1], (nth,))) != (pos > 0 and ref_anb(aa, bb, pos)):
                     ok = False
+    return ok
+
+
+
+WBLOCK = 6
+
+
+def nth_walk_ok(bi: int) -> bool:
+    """
+    pre: 0 <= bi * WBLOCK < NW
+    post: _
+    """
+    # a block of 6 layouts / containers is chosen by symbolic index; the three counting modes and both directions run natively
+    bi = concrete(bi)
+    ok = True
+    with notrace():
+        for wi in range(bi * WBLOCK, min(NW, (bi + 1) * WBLOCK)):
+            for mode in (0, 1, 2):
+                for last in (False, True):
+                    ok = ok and _walk(wi, mode, last)
     return ret(ok)
 
 
 PAIR_MODES = [(0, 2), (2, 0), (2, 2), (0, 1), (1, 2), (0, 0)]
 
 
-def nth_pairs_ok(wi: int, pm: int, last1: bool, last2: bool) -> bool:
-    """
-    pre: 0 <= wi < NW
-    pre: 0 <= pm < len(PAIR_MODES)
-    post: _
-    """
+def _pairs(wi: int, pm: int, last1: bool, last2: bool) -> bool:
     # two positional pseudo-classes on one compound (different "of S" / of-type / direction): the element matches iff
     # it matches each of them alone (positions p, q tried for all p, q)
-    wi, pm, last1, last2 = concrete(wi), concrete(pm), concrete(last1), concrete(last2)
-    with notrace():
+    if True:
         layout, container = WALK[wi]
         soup, parent, els = tree(layout, container)
         m = cm.CSSMatch(ct.SelectorList(), els[0][1] if container == 2 else soup, None, 0)
@@ -223,6 +231,22 @@ def nth_pairs_ok(wi: int, pm: int, last1: bool, last2: bool) -> bool:
                            ref_position(els, i, specs[1][2], specs[1][0], specs[1][1], container == 3) == q)
                     if both != exp:
                         ok = False
+    return ok
+
+
+def nth_pairs_ok(bi: int) -> bool:
+    """
+    pre: 0 <= bi * WBLOCK < NW
+    post: _
+    """
+    bi = concrete(bi)
+    ok = True
+    with notrace():
+        for wi in range(bi * WBLOCK, min(NW, (bi + 1) * WBLOCK)):
+            for pm in range(len(PAIR_MODES)):
+                for last1 in (False, True):
+                    for last2 in (False, True):
+                        ok = ok and _pairs(wi, pm, last1, last2)
     return ret(ok)
 
 
